@@ -27,6 +27,19 @@ static void judge_success(struct sim *s)
 	ex->client_success = true;
 	sim_snapshot(s, s->sock, &A);
 	CNT("c03/exchanges_judged_success");
+	if (ex->content_unknown && ex->ncand == 0 && !ex->truncated) {
+		/* fuzzed records the model cannot name: only the framing verdict applies, and it found nothing */
+		CNT("c04/accepted_responses_with_unmodelled_records");
+		ex->resp_valid = false;
+		s->expect_kind = 1;
+		s->expect_sess = (uint16_t)s->sock->session_id;
+		s->expect_serial = s->sock->serial_number;
+		s->t_ok = VNOW;
+		s->holds_data = true;
+		s->ever_synced = true;
+		ex->open = false;
+		return;
+	}
 	if (!ex->resp_valid) {
 		/* the client accepted something the reference verdict rejects */
 		snprintf(key, sizeof(key), "C03:accepted-defective-response:%s", dname(s));
@@ -213,6 +226,19 @@ static void on_query(struct sim *s, const uint8_t *p, uint32_t len)
 	char key[160];
 
 	s->wire.queries++;
+	/* query storm: exchanges repeat although virtual time stands still (the transport-call spin monitor is
+	 * blind to it because every round consumes input) */
+	if (VNOW == s->t_last_query) {
+		if (++s->queries_same_second > 3000 && !s->spin_reported) {
+			s->spin_reported = true;
+			viol("C08", "C08:spin:query-storm", "%ld queries sent without virtual time advancing (socket state %d)", s->queries_same_second, s->sock->state);
+			viol("C04", "C04:spin:query-storm", "client repeats exchanges without letting time advance");
+			s->finished = true;
+		}
+	} else {
+		s->t_last_query = VNOW;
+		s->queries_same_second = 0;
+	}
 	s->errpdu_delivered_on_conn = false; /* "no report in reply to an Error Report" is per exchange */
 	CNT(type == 1 ? "wire/serial_queries" : "wire/reset_queries");
 	sim_judge_failure_if_open(s, "next-query", type, sess, serial);
@@ -419,6 +445,7 @@ void sim_on_client_bytes(struct sim *s, const uint8_t *b, size_t n)
 
 	CNT("wire/write_chunks");
 	cnt_add("wire/bytes", n);
+	s->sent_hash = hbytes(s->sent_hash, b, n);
 	if (w->broken)
 		return;
 	if (w->len + n > sizeof(w->buf)) {
